@@ -27,6 +27,73 @@ type bodyGen struct {
 	n     *int // shared counter (unique identifiers / ids)
 	named bool
 	uses  []string // statements exercising the file's extra imports
+	// identifiers shadowing packages the resolver template reserves (see shadowArgWords in schema.go)
+	shadow bool     // add such statements
+	params []string // parameters of this method of type ShadowIn / *ShadowIn (named after schema arguments)
+}
+
+// names for shadowing locals (block-scoped, so every one of them may be combined with every other statement)
+var shadowLocalWords = []string{"time", "errors", "bytes", "sync", "io", "strconv", "ast", "graphql", "gqlparser", "introspection", "context"}
+
+// genuine uses of the packages themselves (only in a method that has no parameter of that name)
+var shadowPkgUses = []struct{ pkg, spec, stmt string }{
+	{"time", `"time"`, `_ = time.Second`},
+	{"errors", `"errors"`, `_ = errors.New("x")`},
+	{"strconv", `"strconv"`, `_ = strconv.Itoa(1)`},
+	{"bytes", `"bytes"`, `_ = bytes.MinRead`},
+	{"sync", `"sync"`, `_ = sync.NewCond`},
+	{"io", `"io"`, `_ = io.EOF`},
+	{"graphql", `"github.com/99designs/gqlgen/graphql"`, `_ = graphql.Null`},
+}
+
+// shadowStmt: one statement in which an identifier spelled like a reserved package is the base of a selector -
+// a parameter, a := local, a var, a range variable, a closure parameter, an if-initialiser, an error value whose
+// method is called, a struct FIELD of that name reached through another local - or a genuine use of the package.
+func (g *bodyGen) shadowStmt(ind string) []string {
+	id := g.id()
+	w := shadowLocalWords[g.r.Below(len(shadowLocalWords))]
+	k := g.r.Below(10)
+	if k <= 1 && len(g.params) == 0 {
+		k = 2 + g.r.Below(8)
+	}
+	switch k {
+	case 0:
+		return []string{fmt.Sprintf("%s_ = %s.Zone", ind, g.params[g.r.Below(len(g.params))])}
+	case 1:
+		p := g.params[g.r.Below(len(g.params))]
+		return []string{fmt.Sprintf("%sif %s.Hour != nil {", ind, p), fmt.Sprintf("%s\t_ = *%s.Hour + %d", ind, p, id), ind + "}"}
+	case 2:
+		return []string{ind + "{", fmt.Sprintf("%s\t%s := struct{ Text string }{Text: \"t%d\"}", ind, w, id), fmt.Sprintf("%s\t_ = %s.Text", ind, w), ind + "}"}
+	case 3:
+		return []string{fmt.Sprintf("%sfor _, %s := range []struct{ N int }{{N: %d}} {", ind, w, id), fmt.Sprintf("%s\t_ = %s.N", ind, w), ind + "}"}
+	case 4:
+		return []string{fmt.Sprintf("%s_ = func(%s struct{ A int }) int { return %s.A + %d }", ind, w, w, id)}
+	case 5:
+		return []string{ind + "{", fmt.Sprintf("%s\tvar %s struct{ Base int }", ind, w), fmt.Sprintf("%s\t_ = %s.Base", ind, w), ind + "}"}
+	case 6:
+		return []string{ind + "{", fmt.Sprintf("%s\t%s := fmt.Errorf(\"e%d\")", ind, w, id), fmt.Sprintf("%s\t_ = %s.Error()", ind, w), ind + "}"}
+	case 7:
+		return []string{ind + "{", fmt.Sprintf("%s\tw%d := struct{ %s struct{ Zone string } }{}", ind, id, w), fmt.Sprintf("%s\t_ = w%d.%s.Zone", ind, id, w), ind + "}"}
+	case 8:
+		return []string{fmt.Sprintf("%sif %s := (struct{ L int }{L: %d}); %s.L > 0 {", ind, w, id, w), fmt.Sprintf("%s\t_ = %s.L", ind, w), ind + "}"}
+	default:
+		var ok []string
+		for _, u := range shadowPkgUses {
+			free := true
+			for _, p := range g.params {
+				if p == u.pkg {
+					free = false
+				}
+			}
+			if free {
+				ok = append(ok, u.stmt)
+			}
+		}
+		if len(ok) == 0 {
+			return []string{ind + "// no package left to use"}
+		}
+		return []string{ind + ok[g.r.Below(len(ok))]}
+	}
 }
 
 func (g *bodyGen) id() int { *g.n++; return *g.n }
@@ -103,6 +170,16 @@ func (g *bodyGen) stmt(depth int, ind string) []string {
 // body returns the text between the braces of a resolver method (tab-indented lines).
 func (g *bodyGen) body(tag string) string {
 	lines := g.stmts(2, "\t")
+	if g.shadow {
+		// at the start or at the end only: the generated statements span lines (raw strings, blocks)
+		for n := 1 + g.r.Below(3); n > 0; n-- {
+			if st := g.shadowStmt("\t"); g.r.Below(2) == 0 {
+				lines = append(st, lines...)
+			} else {
+				lines = append(lines, st...)
+			}
+		}
+	}
 	switch g.r.Below(8) {
 	case 0:
 		lines = append([]string{"\t// leading comment"}, lines...)
@@ -189,6 +266,7 @@ type EditOpts struct {
 	AccessorBody  map[string]string // accessor name -> body
 	StructFor     map[string]string // struct type name -> verbatim declaration
 	NoRandom      bool
+	Shadow        int  // percentage of rewritten bodies that get statements with shadowing identifiers
 	Raw           bool // write the edited file as typed, without gofmt
 	ValueReceiver map[string]bool
 }
@@ -260,6 +338,12 @@ func (w *W) editFile(r *rng.R, path string, o EditOpts) error {
 	}
 	for _, s := range o.ExtraImports {
 		add(s)
+	}
+	if o.Shadow > 0 {
+		// the packages a body may genuinely use; the ones no body uses are dropped again below
+		for _, u := range shadowPkgUses {
+			add(u.spec)
+		}
 	}
 	var uses []string
 	for _, e := range extraImports {
@@ -370,6 +454,16 @@ func (w *W) editFile(r *rng.R, path string, o EditOpts) error {
 			if rewrite || forcedN {
 				w.N++
 				g := &bodyGen{r: r, n: &w.N, named: named, uses: uses}
+				if o.Shadow > 0 && r.Below(100) < o.Shadow {
+					g.shadow = true
+					for _, p := range d.Type.Params.List {
+						if strings.Contains(nodeText(fset, p.Type), shadowInput) {
+							for _, n := range p.Names {
+								g.params = append(g.params, n.Name)
+							}
+						}
+					}
+				}
 				inner = "\n" + g.body(fmt.Sprintf("%s #%d", key, w.N)) + "\n"
 				// doc
 				switch r.Below(5) {
